@@ -130,6 +130,23 @@ func (d *Driver) Snapshot(ctx context.Context) (migrate.RestoreFunc, error) {
 	if !(r == nil || (len(r.Schemas) == 1 && r.Schemas[0].Name == mainFile && len(r.Schemas[0].Tables) == 0)) {
 		return nil, &migrate.NotCleanError{State: r, Reason: fmt.Sprintf("found table %q", r.Schemas[0].Tables[0].Name)}
 	}
+	// Views and triggers are not part of the inspection above, but are
+	// removed by the restore function below. Consult the catalog directly.
+	rows, err := d.QueryContext(ctx, "SELECT `type`, `name` FROM sqlite_master WHERE `type` IN ('view', 'trigger') LIMIT 1")
+	if err != nil {
+		return nil, fmt.Errorf("sql/sqlite: querying views and triggers: %w", err)
+	}
+	defer rows.Close()
+	if rows.Next() {
+		var typ, name string
+		if err := rows.Scan(&typ, &name); err != nil {
+			return nil, err
+		}
+		return nil, &migrate.NotCleanError{State: r, Reason: fmt.Sprintf("found %s %q", typ, name)}
+	}
+	if err := rows.Close(); err != nil {
+		return nil, err
+	}
 	return func(ctx context.Context) error {
 		for _, stmt := range []string{
 			"PRAGMA writable_schema = 1;",
